@@ -116,6 +116,8 @@ def enabled(w, groups=GROUPS, vcap=8, ncap=4, pair_cap=4):
             ((), None, (first,), 0, None),  # outputs=[possibly a graph input / produced value]
             ((first,), 2, (last,), None, None),  # inconsistent num_outputs/outputs
             ((last, last), 1, None, 0, "a"),
+            ((first,), None, (last,), None, "<bad attribute>"),  # rejected after the inputs and outputs were looked at
+            ((first,), 1, None, 0, "<bad attribute>"),
         ]
         for f in forms:
             if any(x is None and i != 1 for i, x in enumerate(f[0])) and not vals:
